@@ -426,6 +426,10 @@ def _apply_positions(C, self, pos, f):
     n = V.n
     P = _positions(C, pos)
     cur = BA(V.n, V.bit)
+    if P[0] == 'range' and not sym.have_ctx() and all(isinstance(x, int) for x in P[1:]) and P[2] <= 64:
+        # concrete evaluation (replay, bounded stand-in): a range is the list of its positions, applied one by one -- which also
+        # fixes what happens when some position is out of range (the earlier ones are applied, then IndexError) or named twice
+        P = ('list', list(range(P[1], P[1] + P[2] * P[3], P[3])))
     if P[0] == 'list':
         for p in P[1]:
             j = ite(p < 0, p + n, p)
@@ -433,7 +437,7 @@ def _apply_positions(C, self, pos, f):
                 _set_bits(C, self, cur)
                 C.throw('IndexError')
             a = cur.bit
-            cur = BA(n, lambda i, a=a, j=j: _sel(sym.eq(i, j), f(a(i)), a(i)))
+            cur = BA(n, lambda i, a=a, j=j: (lambda old: _sel(sym.eq(i, j), f(old), old))(a(i)))     # (a(i) once: the views nest)
         _set_bits(C, self, cur)
         return None
     _, first, cnt, step = P
